@@ -23,12 +23,22 @@ class Faults(object):
         self.run = 0            # current number of consecutive faulty blocks
         self.maxrun = 0
         self.log = []
+        self.dep = None         # the reader's IsoDepInitiator (set by the harness)
+        self.pos = 0            # blocks the reader has completed so far
+        self.last_pni = None
+        self.per_pos = {}       # faults while the reader transfers block #pos
 
     def __call__(self, sim, cmd):
         sx = self.sx
         if not sim.activated:
             return None          # activation frames are not part of the exchange
         self.k += 1
+        if self.dep is not None:
+            # the reader toggles its block number exactly once per completed
+            # block and exchanges at least once in between
+            if self.last_pni is not None and self.dep.pni != self.last_pni:
+                self.pos += 1
+            self.last_pni = self.dep.pni
         f = "ok"
         if self.used < self.budget and self.k <= 24:
             f = sx.pick("fault_at_block_%d" % self.k, ["ok"] + self.kinds)
@@ -37,6 +47,7 @@ class Faults(object):
             self.run = 0
             return None
         self.used += 1
+        self.per_pos[self.pos] = self.per_pos.get(self.pos, 0) + 1
         self.run += 1
         self.maxrun = max(self.maxrun, self.run)
         if f == "cmd-lost":
@@ -77,6 +88,7 @@ def conversation(sx, typ, fsci, fwi, tx_size, clens, rlens, wtx, budget, kinds, 
     card.script = rsps
     faults = Faults(sx, budget, kinds)
     card.hook = faults
+    faults.dep = tag._dep
     outcome = []
     failed = False
     retry = tag._dep.n_retry_nak
@@ -94,6 +106,11 @@ def conversation(sx, typ, fsci, fwi, tx_size, clens, rlens, wtx, budget, kinds, 
             # exchange hit by no more faults than that budget must complete
             if not failed and faults.used - used_before <= retry and faults.maxrun <= 1:
                 sx.check(False, "single-faults-not-absorbed:apdu%d:%s"
+                         % (i, "+".join(x for x in faults.log if x != "ok")))
+            # ... and the budget is one per block: faults spread over several
+            # blocks of a chained exchange, none hit more often than the budget
+            if not failed and retry >= 1 and max(faults.per_pos.values()) <= retry:
+                sx.check(False, "faults-within-per-block-budget-not-absorbed:apdu%d:%s"
                          % (i, "+".join(x for x in faults.log if x != "ok")))
             n = len(card.script_seen) - seen_before
             sx.check(n <= 1, "apdu-executed-more-than-once:apdu%d" % i)
@@ -177,6 +194,11 @@ def partitions(tier):
     P.append(dict(name="A:wtx:fwi14", fn="conversation",
                   params=dict(typ="A", fsci=2, fwi=14, tx_size=29, clens=[2], rlens=[1],
                               wtx=[0], budget=0, kinds=kinds, wtx_counts=[1, 2])))
+    # retry budget 1 (FWI 11) and an exchange chained over three blocks each
+    # way: one fault at each of two different blocks stays within the budget
+    P.append(dict(name="A:fwi11:chained", fn="conversation",
+                  params=dict(typ="A", fsci=2, fwi=11, tx_size=29, clens=["2m+1"], rlens=["2m+1"],
+                              wtx=[], budget=2 if tier == "quick" else 3, kinds=kinds)))
     P.append(dict(name="A:no-retry-budget", fn="conversation",
                   params=dict(typ="A", fsci=2, fwi=14, tx_size=29, clens=["1m+1"], rlens=["1m+1"],
                               wtx=[], budget=1, kinds=kinds)))
